@@ -55,7 +55,17 @@ fn count(f: impl FnOnce(&mut Counters)) {
     });
 }
 
+fn echo() -> bool {
+    static ECHO: std::sync::OnceLock<bool> = std::sync::OnceLock::new();
+    *ECHO.get_or_init(|| std::env::var_os("VERIF_HOOKS_ECHO").is_some())
+}
+
 fn violation(message: String) {
+    // The access that follows a violation may well crash the process: with VERIF_HOOKS_ECHO set the
+    // report is also written to stderr at once.
+    if echo() {
+        eprintln!("HOOK-VIOLATION: {}", message);
+    }
     let _ = VIOLATIONS.try_with(|v| {
         if let Ok(mut v) = v.try_borrow_mut() {
             if v.len() < 64 {
